@@ -187,6 +187,8 @@ pub fn toy_run(tc: &ToyCase, model: &mut Model) -> ToyOutcome {
             {
                 let d = e.debug_interface().unwrap();
                 d.break_all = c.bpall;
+                d.budget = 200_000;
+                d.call_steps = 0;
                 d.bps = c.bps.iter().filter_map(|i| pc_of_step.get(*i).copied()).collect();
             }
             e.set_speed(if c.max { EmulationMode::Max } else { EmulationMode::FrameCount(c.n) });
@@ -208,6 +210,10 @@ pub fn toy_run(tc: &ToyCase, model: &mut Model) -> ToyOutcome {
             let steps = e.debug_interface().unwrap().steps - before;
             let pc = e.verif_cpu().regs.get_pc();
             let idx = idx_of.get(&pc).copied().unwrap_or(0xFFFF);
+            if e.debug_interface().unwrap().exhausted {
+                obs.push(format!("hang: no return within 200000 steps (mode {} n {})", if c.max { "max" } else { "fc" }, c.n));
+                break;
+            }
             let (reason, dur) = match r {
                 Ok(i) => (
                     match i.stop_reason {
@@ -259,6 +265,16 @@ pub fn toy_run(tc: &ToyCase, model: &mut Model) -> ToyOutcome {
             res.kind = Some(Kind::ModelMismatch);
             res.what = format!("the model itself contradicts slicing_irrelevant (call {}): {}", ci, verdict);
             res.expected = verdict;
+            return res;
+        }
+        if ci >= obs.len() {
+            break;
+        }
+        if obs[ci].starts_with("hang") {
+            res.kind = Some(Kind::SpecViolated);
+            res.what = format!("call {} of the toy driving does not return although the model (and the time/frame bound) says it must", ci);
+            res.implementation = obs[ci].clone();
+            res.expected = model_obs;
             return res;
         }
         if obs[ci] != model_obs {
